@@ -399,9 +399,11 @@ func C08(tier string) {
 	stdRe := `^(vprog|strings|strconv|bytes|sort|errors|path|unicode/utf8|bufio|container/list)`
 	maxI := 1500
 	if tier == "thorough" {
-		nGen = 10
-		stdRe = `.*`
-		maxI = 6000
+		nGen = 6
+		// (`.*` would run the intra-procedural analysis over the whole standard library from its bodies: every
+		// target then ends in the watchdog; a wider but bounded set of packages is the feasible "thorough")
+		stdRe = `^(vprog|strings|strconv|bytes|sort|errors|path|unicode/utf8|bufio|container/list|io|sync|encoding/hex|encoding/base64|net/url|text/tabwriter|path/filepath)`
+		maxI = 3000
 	}
 	if tier == "smoke" {
 		nGen = 1
